@@ -106,6 +106,27 @@ fn scenarios(thorough: bool) -> Vec<Scenario> {
             }
         }
     }
+    // four peers, two of them drop at different frames; one survivor registers both drops early
+    // (short timeouts) and reports them to the other (long timeouts, wide window, still
+    // predicting for both) in one packet after an outage on their link
+    for (d2, d3) in [(5, 8), (8, 5), (6, 7)] {
+        for w in [16usize, 24] {
+            let mut s = base_scn("c17-two-drops", "1+1+1+1", w, 0, false, Pred::RepeatLast, Program::Changing, 1);
+            s.peers[0].notify_ms = 1000;
+            s.peers[0].timeout_ms = 3000;
+            s.peers[1].notify_ms = 50;
+            s.peers[1].timeout_ms = 100;
+            s.script.push(ScriptItem { round: d2, node: 2, action: Action::Die });
+            s.script.push(ScriptItem { round: d3, node: 3, action: Action::Die });
+            let (a, b) = (s.peers[0].addr, s.peers[1].addr);
+            s.outages.push(Outage { from: b, to: a, start: d2.min(d3) + 3, len: 12, classes: CLASS_ALL });
+            s.name = format!("{} deaths@{d2},{d3}", s.name);
+            s.horizon = 30;
+            s.probe = 30;
+            s.checks = CK_C02 | CK_C04;
+            v.push(s);
+        }
+    }
     v
 }
 
